@@ -88,6 +88,9 @@ func clampIdiom(c *eng.Ctx, fn *ssa.Function, min int) {
 func runC11(c *eng.Ctx) {
 	p := c.P
 
+	// ---- 0. the families a query reads: no family inside the query range is passed over (F49, rule shared with C13) ------
+	calcFamilyInsideItsSegment(c)
+
 	// ---- 1. a family read unions memory and files ----------------------------------------------------------------------
 	c.Rule("UNION", dfT+".Filter{mutable ∪ immutable ∪ files}", func() {
 		f := c.Fn(dfT + ".Filter")
